@@ -22,7 +22,7 @@ Qed.
 Lemma section_run_perm : forall u p tz vn a b e D A,
   version_wf a -> version_wf b -> v_soa a <> v_soa vn -> zsorted tz ->
   (forall k, k <> soakey -> look tz k = look (v_rest a) k) ->
-  Permutation D (zminus (v_rest a) (v_rest b)) -> Permutation A (zminus (v_rest b) (v_rest a)) ->
+  Permutation D (zminus (v_rest a) (v_rest b)) -> same_set A (zminus (v_rest b) (v_rest a)) ->
   exists tz',
     loopn (ist u p tz (v_serial a) (single (soa_rr vn)) e false) (map single (soa_rr a :: D ++ soa_rr b :: A)) =
     (ist u p tz' (v_serial b) (single (soa_rr vn)) false false, None)
@@ -34,7 +34,8 @@ Proof.
   assert (PlD : Forall plain D).
   { eapply Permutation_Forall; [apply Permutation_sym, PD|apply zminus_plain, Ha]. }
   assert (PlA : Forall plain A).
-  { eapply Permutation_Forall; [apply Permutation_sym, PA|apply zminus_plain, Hb]. }
+  { apply Forall_forall. intros r Hr. apply PA in Hr.
+    pose proof (zminus_plain (v_rest b) (v_rest a) Hb) as Hp. rewrite Forall_forall in Hp. apply Hp, Hr. }
   exists (adds (zput soakey (v_ttl b, [v_soa b]) z1') A). split.
   - cbn [map loopn]. rewrite step_del_start by assumption.
     rewrite map_app, loopn_app.
@@ -50,7 +51,7 @@ Proof.
       - destruct (key_eqb (rkey r) k); [|eapply IH; eassumption].
         destruct (del1 e0 (r_data r)) as [e'|] eqn:E; cbn [bindo] in F; [|discriminate].
         eapply IH; [|exact F]. eapply wf_e_del1; eassumption. }
-    eapply zeq_trans; [apply adds_perm; [exact PA|apply zsorted_zput_one, S1]|].
+    eapply zeq_trans; [apply adds_same_set; [exact PA|apply zsorted_zput_one, S1]|].
     eapply zeq_trans; [apply adds_zeq, zput_zeq, Hz1|].
     intros k. rewrite Hadd, look_zone_of. reflexivity.
 Qed.
@@ -141,12 +142,13 @@ Proof.
   rewrite (first_message_axfr z0 ser w (soa_rr v) a Hw Hr) by (split; reflexivity).
   pose proof Hv as [Httl Hwf].
   assert (PlB : Forall plain B).
-  { eapply Permutation_Forall; [apply Permutation_sym, PB|apply body_plain, Hwf]. }
+  { apply Forall_forall. intros r0 Hr0. apply PB in Hr0.
+    pose proof (body_plain _ Hwf) as Hp. rewrite Forall_forall in Hp. apply Hp, Hr0. }
   destruct (cont_full ws' false (map single) a tAXFR z0 [] (match ser with Some sv => sv | None => 0 end) v
               B parse_single_ok parse_group_ok Httl Hws PlB zsorted_nil Hcat)
     as [z' [n [Hn Hz']]].
   exists z', n. split; [exact Hn|]. apply full_target; [exact Hv|].
-  eapply zeq_trans; [exact Hz'|]. apply zput_zeq, adds_perm; [exact PB|apply zsorted_nil].
+  eapply zeq_trans; [exact Hz'|]. apply zput_zeq, adds_same_set; [exact PB|apply zsorted_nil].
 Qed.
 
 (* AXFR-style answer to an IXFR request, body in any order *)
@@ -160,14 +162,16 @@ Proof.
   apply chunking_first in Hch. destruct Hch as (w & ws' & a & -> & Hr & Hw & Hws & Hcat).
   pose proof Hv as [Httl Hwf].
   assert (PlB : Forall plain B).
-  { eapply Permutation_Forall; [apply Permutation_sym, PB|apply body_plain, Hwf]. }
+  { apply Forall_forall. intros r0 Hr0. apply PB in Hr0.
+    pose proof (body_plain _ Hwf) as Hp. rewrite Forall_forall in Hp. apply Hp, Hr0. }
   destruct B as [|r c].
-  { exfalso. apply Permutation_nil in PB.
+  { exfalso.
     destruct (v_rest v) as [|[k [t ds]] rest]; [congruence|].
     destruct Hwf as [_ Hf]. inversion Hf as [|? ? He _]; subst.
-    unfold body in PB. cbn [flat_map] in PB. apply app_eq_nil in PB. destruct PB as [Eb _].
-    rewrite rrs_of_entry_mk in Eb. destruct k as [[n ty] cv]. cbn in He.
-    destruct He as (_ & _ & _ & Hds & _). destruct ds; [congruence|discriminate]. }
+    destruct k as [[n ty] cv]. cbn in He. destruct He as (_ & _ & _ & Hds & _).
+    destruct ds as [|d ds]; [congruence|].
+    apply (proj2 (PB (mkRR n cIN ty cv t d))). unfold body. cbn [flat_map]. apply in_or_app. left.
+    cbn. left. reflexivity. }
   inversion PlB as [|? ? Hpr Hpc]; subst.
   unfold inbound_xfr. rewrite init_ixfr. cbn [Z.eqb tIXFR Pos.eqb]. rewrite drive_cons.
   rewrite (first_message_ixfr z0 ser false w (soa_rr v) a Hw Hr) by (split; reflexivity).
@@ -176,7 +180,7 @@ Proof.
   destruct (cont_fallback ws' a z0 z0 ser v r c Httl Hws Hpr Hpc Hcat) as [z' [n [Hn Hz']]].
   exists z', n. split; [exact Hn|].
   apply full_target; [exact Hv|].
-  eapply zeq_trans; [exact Hz'|]. apply zput_zeq, adds_perm; [exact PB|apply zsorted_nil].
+  eapply zeq_trans; [exact Hz'|]. apply zput_zeq, adds_same_set; [exact PB|apply zsorted_nil].
 Qed.
 
 (* the canonical streams of XfrSpec are instances *)
@@ -184,5 +188,5 @@ Lemma ixfr_seqs_canonical : forall chain v0, ixfr_seqs v0 chain (diff_seqs v0 ch
 Proof.
   induction chain as [|w chain IH]; intros v0; cbn [diff_seqs]; [constructor|].
   unfold diff_seq. cbn [app]. rewrite <- app_assoc. cbn [app].
-  apply seqs_cons; [apply Permutation_refl|apply Permutation_refl|apply IH].
+  apply seqs_cons; [apply Permutation_refl|intros r; reflexivity|apply IH].
 Qed.
